@@ -542,3 +542,103 @@ pub fn u_build_raw() {
     build_obligations(&r, &signer, seq, &want, valid);
     core::mem::forget(r);
 }
+
+/// remove_key of a key that is ABSENT: still one content update (sequence number +1, re-signed),
+/// and at 2^64-1 it fails like every other update
+#[cfg_attr(kani, kani::proof)]
+#[cfg_attr(kani, kani::stub(enr::digest, digest_stub))]
+#[cfg_attr(kani, kani::stub(enr::Enr::id, id_stub))]
+#[cfg_attr(kani, kani::stub(<[u8]>::to_vec, to_vec_stub))]
+pub fn u_remove_absent() {
+    let seq = sym::u64();
+    let pk = any_pk();
+    let kraw0 = [0x81u8, pk];
+    let port = sym::u16();
+    let (oe, on) = ref_port_enc(port);
+    let pre: [(&[u8], &[u8]); 3] = [(b"id", &ID_RAW), (KNAME, &kraw0), (b"tcp", &oe[..on])];
+    let p = pre_state(pk, seq, &pre);
+    let mut e = p.e;
+    let signer = any_key();
+    let before = snap(&e);
+    let res = e.remove_key("udp", &signer);
+    let kraw = [0x81u8, signer.id];
+    let want: [(&[u8], &[u8]); 3] = [(b"id", &ID_RAW), (KNAME, &kraw), (b"tcp", &oe[..on])];
+    let want_seq = seq.wrapping_add(1);
+    let causes = causes_for(p.sig_len, seq, &signer, &want, true, want_seq);
+    step_obligations(&e, &before, &pre, &res, &signer, &want, want_seq, &causes, false);
+    assert!(err_kind(&res) != 4 && err_kind(&res) != 5, "C08: remove_key reports only size, sequence or signing errors");
+    core::mem::forget(e);
+}
+
+/// set_udp_socket with an IPv6 address: writes ip6 and udp6 only (buffers of 56 bytes, limit 48)
+#[cfg_attr(kani, kani::proof)]
+#[cfg_attr(kani, kani::stub(enr::digest, digest_stub))]
+#[cfg_attr(kani, kani::stub(enr::Enr::id, id_stub))]
+#[cfg_attr(kani, kani::stub(<[u8]>::to_vec, to_vec_stub))]
+pub fn u_set_udp_socket6() {
+    let seq = sym::u64();
+    sym::assume(seq < (1u64 << 16));
+    let pk = any_pk();
+    let kraw0 = [0x81u8, pk];
+    let pre: [(&[u8], &[u8]); 2] = [(b"id", &ID_RAW), (KNAME, &kraw0)];
+    let p = pre_state(pk, seq, &pre);
+    let mut e = p.e;
+    let signer = any_key();
+    let before = snap(&e);
+    let mut ip = [0u8; 16];
+    ip[0] = sym::u8();
+    ip[7] = sym::u8();
+    ip[15] = sym::u8();
+    let port = sym::u16();
+    let sock = std::net::SocketAddr::V6(std::net::SocketAddrV6::new(std::net::Ipv6Addr::from(ip), port, 0, 0));
+    let res = e.set_udp_socket(sock, &signer);
+    let (pe, pn) = ref_port_enc(port);
+    let mut ipraw = [0u8; 17];
+    ipraw[0] = 0x90;
+    ipraw[1..].copy_from_slice(&ip);
+    let kraw = [0x81u8, signer.id];
+    let want: [(&[u8], &[u8]); 4] = [(b"id", &ID_RAW), (b"ip6", &ipraw), (KNAME, &kraw), (b"udp6", &pe[..pn])];
+    let want_seq = seq.wrapping_add(1);
+    let causes = causes_for(p.sig_len, seq, &signer, &want, true, want_seq);
+    let sock_back = e.udp6_socket();
+    let others_absent = e.tcp4().is_none() && e.ip4().is_none() && e.udp4().is_none() && e.tcp6().is_none();
+    step_obligations(&e, &before, &pre, &res, &signer, &want, want_seq, &causes, true);
+    assert!(res.is_err() || sock_back == Some(std::net::SocketAddrV6::new(std::net::Ipv6Addr::from(ip), port, 0, 0)),
+            "C14: a socket set through the socket setter reads back as the value set");
+    assert!(others_absent, "C08: a socket setter writes only its own family's ip and port keys");
+    core::mem::forget(e);
+}
+
+/// set_tcp_socket with an IPv4 address on a record that already has udp: writes ip and tcp only
+#[cfg_attr(kani, kani::proof)]
+#[cfg_attr(kani, kani::stub(enr::digest, digest_stub))]
+#[cfg_attr(kani, kani::stub(enr::Enr::id, id_stub))]
+#[cfg_attr(kani, kani::stub(<[u8]>::to_vec, to_vec_stub))]
+pub fn u_set_tcp_socket4() {
+    let seq = sym::u64();
+    sym::assume(seq < (1u64 << 32));
+    let pk = any_pk();
+    let kraw0 = [0x81u8, pk];
+    let pre: [(&[u8], &[u8]); 2] = [(b"id", &ID_RAW), (KNAME, &kraw0)];
+    let p = pre_state(pk, seq, &pre);
+    let mut e = p.e;
+    let signer = any_key();
+    let before = snap(&e);
+    let ip: [u8; 4] = sym::bytes::<4>();
+    let port = sym::u16();
+    let sock = std::net::SocketAddr::V4(std::net::SocketAddrV4::new(std::net::Ipv4Addr::from(ip), port));
+    let res = e.set_tcp_socket(sock, &signer);
+    let (pe, pn) = ref_port_enc(port);
+    let ipraw = [0x84u8, ip[0], ip[1], ip[2], ip[3]];
+    let kraw = [0x81u8, signer.id];
+    let want: [(&[u8], &[u8]); 4] = [(b"id", &ID_RAW), (b"ip", &ipraw), (KNAME, &kraw), (b"tcp", &pe[..pn])];
+    let want_seq = seq.wrapping_add(1);
+    let causes = causes_for(p.sig_len, seq, &signer, &want, true, want_seq);
+    let sock_back = e.tcp4_socket();
+    let others_absent = e.udp4().is_none() && e.ip6().is_none() && e.udp6().is_none() && e.tcp6().is_none();
+    step_obligations(&e, &before, &pre, &res, &signer, &want, want_seq, &causes, true);
+    assert!(res.is_err() || sock_back == Some(std::net::SocketAddrV4::new(std::net::Ipv4Addr::from(ip), port)),
+            "C14: a socket set through the socket setter reads back as the value set");
+    assert!(others_absent, "C08: a socket setter writes only its own family's ip and port keys");
+    core::mem::forget(e);
+}
